@@ -136,6 +136,8 @@ def issues_from_validation(ctx, res, label):
             props.add("C20")
         if cfg.get("k", cfg.get("p")) != cfg.get("p"):
             props.add("C20")    # rectangular determining sets: also C20's
+        if cfg.get("topo") in ("TRM", "TRLM"):
+            props.add("C20")    # determining three-standard near-TRL sets
         rp = ctx.save_replay("selfcal-%s.ndjson" % common.sig_hash(sig),
                              "".join(f["lines"]))
         issues.append(vlib.Issue(props, sig, what, replay=rp,
